@@ -29,7 +29,7 @@ const (
 	EvUpdIn  = 17 // management op from inside a rule: C = op index
 	EvKey    = 18 // forRange loop key seen by the loop body  C = key
 	EvObj    = 19 // method invoked on an object kept in a local  C = the object's mark
-	EvAlias  = 22 // locals bound from injected slots and updated in place  C = 1: a local has a wrong value, 2: the injected slot changed; C = 4: about to assign the plain name ov; C = 8+16p: the next statement (section p) may fail; C = 16: a by-value api entry holds another request's value
+	EvAlias  = 22 // locals bound from injected slots and updated in place  C = 1: a local has a wrong value, 2: the injected slot changed; C = 4: about to assign the plain name ov; C = 8+16p: the next statement (section p) may fail; C = 16: a value that belongs to another request; C = 32: a function only an earlier request injected was still callable
 	EvCallB  = 20 // API call invoked          B = method, C = client
 	EvCallR  = 21 // API call returned         B = method, C = flags (1 err, 2 panic)
 	EvMgmtB  = 30 // management op invoked     A = op index
@@ -201,6 +201,9 @@ func (h *H) B(r, p int64) {
 	if rd := h.sc.Rule(int(r)); rd != nil && int(p) < len(rd.Secs) && rd.Secs[p].Kind == SecOpt && !h.c.HasOpt {
 		fire = 1 // the request did not inject Opt
 	}
+	if rd := h.sc.Rule(int(r)); rd != nil && int(p) < len(rd.Secs) && rd.Secs[p].Kind == SecOptFn && !h.c.HasOptFn {
+		fire = 1 // the request did not inject the function ofn
+	}
 	simrt.Emit(EvFP, int64(h.c.Idx), r, p<<1|fire)
 }
 
@@ -257,6 +260,20 @@ const ApiValue = 4242
 func (h *H) ApiIs(r, v int64) {
 	c := int64(0)
 	if v != ApiValue && (h.c.Req == nil || v != h.c.Req.ID) {
+		c = 16
+	}
+	simrt.Emit(EvAlias, int64(h.c.Idx), r, c)
+}
+
+// Obj3 makes a rule-local object with a nested object (for a three-level store rooted in a local).
+func (h *H) Obj3(r int64) *TObj { return &TObj{P: &Nobj{X: r, h: h}} }
+
+// OptV receives what the optional function ofn returned: the id of the request that injected it.
+func (h *H) OptV(r, v int64) {
+	c := int64(0)
+	if !h.c.HasOptFn {
+		c = 32
+	} else if h.c.Req != nil && v != h.c.Req.ID {
 		c = 16
 	}
 	simrt.Emit(EvAlias, int64(h.c.Idx), r, c)
@@ -373,6 +390,10 @@ func (h *H) Data() map[string]interface{} {
 	c.mu.Unlock()
 	if c.HasOpt {
 		d["Opt"] = &OptObj{ID: c.Req.ID}
+	}
+	if c.HasOptFn {
+		id := c.Req.ID
+		d["ofn"] = func(x int64) int64 { return id }
 	}
 	if c.OptName {
 		v := int64(1)
